@@ -21,7 +21,7 @@ def sh(cmd, cwd=None, timeout=3600):
     return p.returncode, p.stdout
 
 
-def confirm(wt, prop, k):
+def confirm(wt, prop, k, store_k=None):
     out = os.path.join(wt, "out")
     patch, demo, meta = (os.path.join(out, f"{n}{k}.{e}") for n, e in (("patch", "diff"), ("demo", "rs"), ("meta", "json")))
     for f in (patch, demo, meta):
@@ -60,7 +60,7 @@ def confirm(wt, prop, k):
     if not ok:
         print(res.get("demo_before_tail", "")[-400:], "\n---\n", res.get("demo_after_tail", "")[-400:], "\n---\n", res.get("suite_tail", ""))
         return False
-    d = os.path.join(ROOT, "seeded", f"{prop}-{k}")
+    d = os.path.join(ROOT, "seeded", f"{prop}-{store_k or k}")
     os.makedirs(d, exist_ok=True)
     shutil.copy(patch, os.path.join(d, "patch.diff"))
     shutil.copy(demo, os.path.join(d, "demo.rs"))
@@ -127,7 +127,7 @@ def matrix():
 if __name__ == "__main__":
     a = sys.argv[1:]
     if a[:1] == ["confirm"]:
-        sys.exit(0 if confirm(a[1], a[2], a[3]) else 1)
+        sys.exit(0 if confirm(a[1], a[2], a[3], a[4] if len(a) > 4 else None) else 1)
     elif a[:1] == ["run"]:
         tier = a[a.index("--tier") + 1] if "--tier" in a else "quick"
         checks = a[a.index("--checks") + 1].split(",") if "--checks" in a else None
